@@ -383,6 +383,12 @@ func init() {
 			sprobes := []Probe{{Kind: "dispatch", Args: map[string]string{"app": "P1", "chain": "0001"}}, {Kind: "relay", Args: map[string]string{"entropy": "5"}}}
 			scfg := &chainDiffCfg{Name: "offchain-sessions", Env: env, Menu: smenu, Depth: 4, Probes: sprobes, Phases: []string{"pre", "post"}, MaxIns: 1}
 			chainDiffExplore(c, scfg)
+			// one session seat for two eligible nodes: who may claim depends on the session key, so a session that claim
+			// validation regenerates on a cold cache must be the one dispatch handed out (and cached) earlier
+			env1 := env
+			env1.SessionNodeCount = 1
+			s1cfg := &chainDiffCfg{Name: "offchain-sessions-one-seat", Env: env1, Menu: smenu[:4], Depth: 4, Probes: sprobes[:1], Phases: []string{"pre", "post"}, MaxIns: 1}
+			chainDiffExplore(c, s1cfg)
 			getPool().Close()
 		},
 		Replay: diffReplayFn,
